@@ -290,16 +290,14 @@ double Interpolation::Local_Minimum(double x_1, double x_2)
 	libphysica::Check_For_Error(x_2 < x_1, "Interpolation::Local_Minimum()", "Faulty order of arguments.");
 	double f_left  = Interpolate(x_1);
 	double f_right = Interpolate(x_2);
-	int i_1		   = Locate(x_1);
-	int i_2		   = Locate(x_2);
-	if(i_1 == i_2)
-		return std::min(f_left, f_right);
-	else
-	{
-		// Find the smallest value of function_values between i_1+1 and i_2.
-		double min_entry = *std::min_element(function_values.begin() + i_1 + 1, function_values.begin() + i_2);
-		return std::min({f_left, min_entry, f_right});
-	}
+	unsigned int i_1 = Locate(x_1);
+	unsigned int i_2 = Locate(x_2);
+	// The pieces are monotone, so the minimum is attained at an end point or at a tabulated point inside [x_1,x_2].
+	double min_entry = std::min(f_left, f_right);
+	for(unsigned int i = i_1; i <= i_2 + 1 && i < N; i++)
+		if(x_values[i] >= x_1 && x_values[i] <= x_2)
+			min_entry = std::min(min_entry, prefactor * function_values[i]);
+	return min_entry;
 }
 
 double Interpolation::Local_Maximum(double x_1, double x_2)
@@ -307,26 +305,28 @@ double Interpolation::Local_Maximum(double x_1, double x_2)
 	libphysica::Check_For_Error(x_2 < x_1, "Interpolation::Local_Minimum()", "Faulty order of arguments.");
 	double f_left  = Interpolate(x_1);
 	double f_right = Interpolate(x_2);
-	int i_1		   = Locate(x_1);
-	int i_2		   = Locate(x_2);
-	if(i_1 == i_2)
-		return std::max(f_left, f_right);
-	else
-	{
-		// Find the largest value of function_values between i_1+1 and i_2.
-		double max_entry = *std::max_element(function_values.begin() + i_1 + 1, function_values.begin() + i_2);
-		return std::max({f_left, max_entry, f_right});
-	}
+	unsigned int i_1 = Locate(x_1);
+	unsigned int i_2 = Locate(x_2);
+	// The pieces are monotone, so the maximum is attained at an end point or at a tabulated point inside [x_1,x_2].
+	double max_entry = std::max(f_left, f_right);
+	for(unsigned int i = i_1; i <= i_2 + 1 && i < N; i++)
+		if(x_values[i] >= x_1 && x_values[i] <= x_2)
+			max_entry = std::max(max_entry, prefactor * function_values[i]);
+	return max_entry;
 }
 
 double Interpolation::Global_Minimum()
 {
-	return *std::min_element(function_values.begin(), function_values.end());
+	double lowest  = *std::min_element(function_values.begin(), function_values.end());
+	double highest = *std::max_element(function_values.begin(), function_values.end());
+	return std::min(prefactor * lowest, prefactor * highest);
 }
 
 double Interpolation::Global_Maximum()
 {
-	return *std::max_element(function_values.begin(), function_values.end());
+	double lowest  = *std::min_element(function_values.begin(), function_values.end());
+	double highest = *std::max_element(function_values.begin(), function_values.end());
+	return std::max(prefactor * lowest, prefactor * highest);
 }
 
 void Interpolation::Save_Function(std::string filename, unsigned int points)
@@ -447,17 +447,27 @@ void Interpolation_2D::Multiply(double factor)
 // Function properties
 double Interpolation_2D::Global_Minimum()
 {
-	std::vector<double> row_minima;
+	std::vector<double> row_minima, row_maxima;
 	for(auto& row : function_values)
+	{
 		row_minima.push_back(*std::min_element(row.begin(), row.end()));
-	return *std::min_element(row_minima.begin(), row_minima.end());
+		row_maxima.push_back(*std::max_element(row.begin(), row.end()));
+	}
+	double lowest  = *std::min_element(row_minima.begin(), row_minima.end());
+	double highest = *std::max_element(row_maxima.begin(), row_maxima.end());
+	return std::min(prefactor * lowest, prefactor * highest);
 }
 double Interpolation_2D::Global_Maximum()
 {
-	std::vector<double> row_maxima;
+	std::vector<double> row_minima, row_maxima;
 	for(auto& row : function_values)
+	{
+		row_minima.push_back(*std::min_element(row.begin(), row.end()));
 		row_maxima.push_back(*std::max_element(row.begin(), row.end()));
-	return *std::max_element(row_maxima.begin(), row_maxima.end());
+	}
+	double lowest  = *std::min_element(row_minima.begin(), row_minima.end());
+	double highest = *std::max_element(row_maxima.begin(), row_maxima.end());
+	return std::max(prefactor * lowest, prefactor * highest);
 }
 
 void Interpolation_2D::Save_Function(std::string filename, unsigned int x_points, unsigned int y_points)
